@@ -161,6 +161,18 @@ class IVec(Vec):
         return IVec(self.kind, self.n, sel, self.name + '.copy')
 
 
+def source_dtypes():
+    """the module-level tuple `_dtypes = bool, int, float, complex` as written in the CURRENT function.py"""
+    import ast
+    _, tree = extract.module_ast('function')
+    for n in tree.body:
+        if isinstance(n, ast.Assign) and any(isinstance(t, ast.Name) and t.id == '_dtypes' for t in n.targets):
+            if isinstance(n.value, ast.Tuple) and all(isinstance(e, ast.Name) and e.id in ('bool', 'int', 'float', 'complex') for e in n.value.elts):
+                return tuple(Builtin(e.id) for e in n.value.elts)
+            raise Unsupported('_dtypes is not a tuple of the four builtin kinds')
+    raise Unsupported('function._dtypes not found')
+
+
 # ------------------------------------------------------------------------------------- models of the environment --
 
 class World:
@@ -370,7 +382,7 @@ class World:
             'evaluable': Ev(), 'numbers': Numbers(), 'numeric': Numeric(), 'types': Types(), 'util': Util(), 'numpy': NumpyModule(),
             'builtins': BuiltinsModule({'set': set_builtin, 'iter': iter_builtin, 'divmod': divmod_builtin}), 'functools': FunctoolsModule(), 'operator': OperatorModule(),
             'set': set_builtin, 'iter': iter_builtin,
-            '_dtypes': DTYPES, '_join_arguments': lambda ctx, it: (ops.iterate(ctx, it), {})[1],
+            '_dtypes': source_dtypes(), '_join_arguments': lambda ctx, it: (ops.iterate(ctx, it), {})[1],
             'isint': lambda ctx, x: is_intlike(x),
         }
         for n in World.REAL:
@@ -449,12 +461,22 @@ class ShapeContract(Contract):
     def raises(self, cx, S, e):
         return False
 
+    _replayed = {}
+
     def replay(self, ob):
         if not self.native_recipe:
             return None
+        # one native replay per contract instance and at most 30 per run: an edit that breaks a shared helper refutes
+        # hundreds of obligations whose replays would all run the same few native comparisons
+        seen = ShapeContract._replayed
+        if self.key() in seen and seen[self.key()] != ob.name:
+            return None
+        if self.key() not in seen and len(seen) >= 30:
+            return None
+        seen[self.key()] = ob.name
         fn, cfg = self.native_recipe
         m = {k: v for k, v in (ob.model or {}).items() if isinstance(v, str) and len(v) < 40}
-        return "import sys; sys.path.insert(0, %r)\nfrom native import c07shape\nc07shape.%s(%s, %s)\n" % (HERE, fn, json.dumps(cfg), json.dumps(m))
+        return "import sys; sys.path.insert(0, %r)\nfrom native import c07shape\nc07shape.%s(%r, %r)\n" % (HERE, fn, cfg, m)
 
 
 def result_lens(result):
